@@ -281,6 +281,9 @@ func (vc *VC) verifyFunction(fn *ssa.Function, con *Contract, pkg *packages.Pack
 		fr.env[p] = v
 		fr.names[p.Name()] = nameEntry{V: v, T: p.Type()}
 	}
+	if fn.Signature.Recv() != nil && len(fn.Params) > 0 {
+		fr.names["self"] = nameEntry{V: fr.env[fn.Params[0]], T: fn.Params[0].Type()}
+	}
 	for i, fv := range fn.FreeVars {
 		v := st.freshVal("fv_"+fv.Name(), fv.Type())
 		fr.env[fv] = v
@@ -1036,6 +1039,9 @@ func (vc *VC) modArrays(c *Contract, fn *ssa.Function, arrays map[string]bool, a
 
 func (vc *VC) modItemArrays(c *Contract, mi *ModItem) []string {
 	pkg := vc.pkgOf(c.Pkg)
+	if mi.Kind == "elemsof" || mi.Kind == "pointee" {
+		return nil // resolved per call site (applyContract) or per function (paramModArrays)
+	}
 	if mi.Kind == "gglobal" {
 		g, ok := vc.gglobals[mi.Path]
 		if !ok {
@@ -2171,6 +2177,27 @@ type modPolicy struct {
 // modPolicyOf: per heap array, what the contract allows to change (most permissive item wins).
 func (vc *VC) modPolicyOf(con *Contract) map[string]*modPolicy {
 	out := map[string]*modPolicy{}
+	for _, mi := range con.Modifies {
+		if mi.Kind == "elemsof" && vc.curFunc != nil {
+			// elements of a slice parameter of the function under verification
+			for _, p := range vc.curFunc.Params {
+				if p.Name() != mi.Path {
+					continue
+				}
+				if sl, ok := p.Type().Underlying().(*types.Slice); ok {
+					for _, l := range vc.leaves(sl.Elem()) {
+						n, _ := vc.elemArr(typeKey(sl.Elem()), l.Path, l)
+						pol := out[n]
+						if pol == nil {
+							pol = &modPolicy{}
+							out[n] = pol
+						}
+						pol.at = append(pol.at, &EIdent{Name: mi.Path})
+					}
+				}
+			}
+		}
+	}
 	for _, mi := range con.Modifies {
 		for _, a := range vc.modItemArrays(con, mi) {
 			p := out[a]
